@@ -40,7 +40,7 @@ ASSUMPTIONS = [
     "foreign files: seconds are compared with the exact rational value within 1e-9 relative",
 ]
 COMPONENTS = {"real": ["partitura.io.exportmidi.save_performance_midi", "partitura.io.importmidi.load_performance_midi/adjust_time", "partitura.io.load_performance", "partitura.performance", "mido"], "stub": ["raw file layer (SimFS)", "independent SMF codec (model/ref_smf.py) as peer reader and writer"]}
-PROBES = ("midifile_object_reused", "second_generation", "list_input", "ppart_input", "merge_tracks_save", "merge_tracks_load", "tick_half_boundary", "tempo_in_later_track", "multiple_tempo_segments", "zero_velocity_note_on_as_off", "fault_in_flight", "load_performance_chain", "reader_on_torn_file")
+PROBES = ("midifile_object_reused", "second_generation", "list_input", "raw_list_input", "ppart_input", "merge_tracks_save", "merge_tracks_load", "tick_half_boundary", "tempo_in_later_track", "multiple_tempo_segments", "two_tempos_on_one_tick", "zero_velocity_note_on_as_off", "fault_in_flight", "load_performance_chain", "reader_on_torn_file")
 
 
 # ----------------------------------------------------------------------------
@@ -70,6 +70,12 @@ def gen_perf(w, k):
             dur = w.choice((float(tick * w.randrange(1, 900)), round(w.uniform(0.01, 2.0), 6), 0.0, float(tick) / 4))
             n = {"id": "p%dn%d" % (pi, i), "midi_pitch": w.randrange(21, 109), "note_on": on, "note_off": on + dur, "velocity": w.randrange(1, 128), "track": w.choice(tracks), "channel": w.choice((0, 0, 1, 9, 15))}
             notes.append(n)
+        if pi > 0 and parts and parts[0]["notes"] and notes and w.random() < 0.4:
+            # struck together with a note of the first part (same tick in the file)
+            src = w.choice(parts[0]["notes"])
+            d0 = notes[0]["note_off"] - notes[0]["note_on"]
+            notes[0]["note_on"] = src["note_on"]
+            notes[0]["note_off"] = src["note_on"] + d0
         controls = [{"type": "c", "number": w.choice((64, 67, 1, 7)), "value": w.randrange(0, 128), "time": round(w.uniform(0, 9), 6), "track": w.choice(tracks), "channel": w.choice((0, 1))} for _ in range(k.choice((0, 0, 2, 5)))]
         programs = [{"program": w.randrange(0, 128), "time": round(w.uniform(0, 2), 6), "track": w.choice(tracks), "channel": w.choice((0, 1))} for _ in range(k.choice((0, 0, 1, 2)))]
         ts = [{"time": 0.0, "beats": w.choice((3, 4, 6)), "beat_type": w.choice((4, 8)), "track": tracks[0]}] if w.random() < 0.4 else []
@@ -132,7 +138,7 @@ def gen_foreign(w, k):
         for _ in range(w.choice((0, 0, 1, 3))):
             kind = w.choice(("pitchwheel", "aftertouch", "polytouch", "sysex"))
             tracks[tr].append({"tick": w.randrange(0, 4000), "type": kind, "channel": w.choice((0, 1)), "pitch": w.randrange(-8192, 8192), "value": w.randrange(0, 128), "note": w.randrange(21, 109)})
-    # equal-tick tempo events of one file would be order-ambiguous: keep distinct ticks
+    # equal-tick tempo events in DIFFERENT tracks would be order-ambiguous: keep distinct ticks across tracks
     seen = set()
     for tr in tracks:
         for ev in list(tr):
@@ -140,6 +146,12 @@ def gen_foreign(w, k):
                 if ev["tick"] in seen:
                     tr.remove(ev)
                 seen.add(ev["tick"])
+    # ... but two tempo events on one tick of ONE track are ordered by the file: the later one is in force
+    for tr in tracks:
+        tempos = [ev for ev in tr if ev["type"] == "set_tempo"]
+        if tempos and w.random() < 0.3:
+            ev = w.choice(tempos)
+            tr.insert(tr.index(ev) + 1, {"tick": ev["tick"], "type": "set_tempo", "tempo": w.choice((400000, 250000, 300000, 1200000))})
     return {"ppq": ppq, "tracks": tracks}
 
 
@@ -149,7 +161,7 @@ def generate(seed, tier, cfg):
     if cfg == "foreign":
         return {"mode": "foreign", "foreign": gen_foreign(w, k), "knobs": {"merge_load": k.random() < 0.3, "default_bpm": k.choice((120, 120, 100)), "chunk": k.choice((0, 7, 1)), "regen": {"shift": o.choice((0.0, 0.5, 0.013)), "ppq": o.choice(("same", "same", 480)), "mpq": o.choice((500000, 500000, 750000))} if k.random() < 0.6 else None}, "ops": [], "faults": []}
     perf = gen_perf(w, k)
-    form = k.choice(("performance", "performance", "list", "ppart"))
+    form = k.choice(("performance", "performance", "list", "ppart", "rawlist"))
     ops = [{"k": "save", "route": o.choice(("path", "path", "filelike"))}]
     for _ in range(k.choice((1, 2, 3))):
         ops.append({"k": "save", "route": o.choice(("path", "filelike"))} if o.random() < 0.25 else {"k": "load", "route": o.choice(("path", "midifile", "midifile", "load_performance")), "merge": o.random() < 0.3})
@@ -217,7 +229,14 @@ def run_foreign(case, res):
     fg, kn = case["foreign"], case["knobs"]
     ppq = fg["ppq"]
     data = ref_smf.encode(ppq, fg["tracks"], fmt=1 if len(fg["tracks"]) > 1 else 0)
-    tempo_map = sorted((ev["tick"], ev["tempo"]) for tr in fg["tracks"] for ev in tr if ev["type"] == "set_tempo")
+    eff = {}
+    for tr in fg["tracks"]:
+        for _, ev in sorted(enumerate(tr), key=lambda x: (x[1]["tick"], x[0])):
+            if ev["type"] == "set_tempo":
+                if ev["tick"] in eff:
+                    res.probe("two_tempos_on_one_tick")
+                eff[ev["tick"]] = ev["tempo"]  # a later event on the same tick supersedes the earlier one
+    tempo_map = sorted(eff.items())
     if any(ev["type"] == "set_tempo" for tr in fg["tracks"][1:] for ev in tr):
         res.probe("tempo_in_later_track")
     if len(tempo_map) >= 2:
@@ -354,9 +373,10 @@ def check_file(res, data, pps, perf, kn):
 def check_loaded(res, loaded, pps, perf, kn, merged_load):
     ppq, mpq = perf["ppq"], perf["mpq"]
     want = []
+    raw = kn.get("form") == "rawlist"
     for pi, pp in enumerate(pps):
         for n in pp.notes:
-            want.append((n["midi_pitch"], n["velocity"], n["channel"], n["note_on"], n["note_off"], n["track"], pi))
+            want.append((n["midi_pitch"], n["velocity"], n["channel"], n["note_on"], n["note_off"], n["track"], 0 if raw else pi))
     got = []
     for pi, pp in enumerate(loaded.performedparts):
         for n in pp.notes:
@@ -444,6 +464,10 @@ def execute(case, keep_log=False):
     elif form == "list":
         res.probe("list_input")
         arg = list(P.Performance(pps, id="perf").performedparts)  # tracks made unique the documented way
+    elif form == "rawlist":
+        # performed parts that no Performance has normalised: parts that name the same track share that track of the file
+        res.probe("raw_list_input")
+        arg = list(pps)
     else:
         res.probe("ppart_input")
         pps = pps[:1]
